@@ -2,7 +2,7 @@
 C01 — model of the alert state machine of `/repo/alert.go` (AlertNode / alertState).
 
 Transcribed 1:1 (same branches, same order of side effects):
-* `AlertNode.findFirstMatchLevel`, `AlertNode.determineLevel`            → `findFirstMatchLevel`, `determineLevel`
+* `alertState.findFirstMatchLevel`, `alertState.determineLevel`          → `findFirstMatchLevel`, `determineLevel`
 * `alertState.addEvent`, `updateFlapping`, `updateExpired`, `triggered`,
   `duration`, `currentLevel`                                              → same names
   (`addEvent` as repaired by the `fix:` commit of findings/C01.txt; the previous body is `addEventOld`)
